@@ -32,11 +32,11 @@ VARIABLES started, stopped, justStopped, startedBefore, running,   \* ReactorBas
           ran,        \* id -> number of times called
           sdlog,      \* phases (1,2,3) of the user shutdown triggers in the order they ran
           sdMark,     \* nf when the shutdown event began firing (-1: not yet)
-          crashAfterSd, \* the user called crash() after the shutdown event began
+          userCrash,  \* the user called crash() inside the current outermost run()
           suCrash,    \* crash() (by anyone) happened while a startup event was in progress or awaiting a Deferred
           last
 vars == <<started, stopped, justStopped, startedBefore, running, trg, dls, fired, pend, newc, now,
-          stack, mode, nf, fnk, ran, sdlog, sdMark, crashAfterSd, suCrash, last>>
+          stack, mode, nf, fnk, ran, sdlog, sdMark, userCrash, suCrash, last>>
 
 RSR == 101       \* built-in during-startup trigger  _reallyStartRunning
 CRASHB == 102    \* built-in during-shutdown trigger crash
@@ -51,6 +51,8 @@ Top == stack[Len(stack)]
 Pop(s) == SubSeq(s, 1, Len(s) - 1)
 RepTop(s, fr) == [s EXCEPT ![Len(s)] = fr]
 InTw == mode = "tw" /\ stack # <<>>
+OnStack(k, ev) == \E i \in 1..Len(stack) : stack[i].k = k /\ stack[i].ev = ev
+Loops == Cardinality({i \in 1..Len(stack) : stack[i].k = "loop"})
 MinT(S) == CHOOSE x \in {c.t : c \in S} : \A y \in {c.t : c \in S} : x <= y
 
 Init ==
@@ -59,12 +61,12 @@ Init ==
               sd |-> [before |-> <<>>, during |-> <<CRASHB, DISC>>, after |-> <<>>]]
     /\ dls = [su |-> {}, sd |-> {}] /\ fired = {} /\ pend = {} /\ newc = {} /\ now = 0
     /\ stack = <<>> /\ mode = "user" /\ nf = 0
-    /\ fnk = <<>> /\ ran = <<>> /\ sdlog = <<>> /\ sdMark = -1 /\ crashAfterSd = FALSE /\ suCrash = FALSE
+    /\ fnk = <<>> /\ ran = <<>> /\ sdlog = <<>> /\ sdMark = -1 /\ userCrash = FALSE /\ suCrash = FALSE
     /\ last = [e |-> "init"]
 
 flags == <<started, stopped, justStopped, startedBefore, running>>
 timers == <<pend, newc, now>>
-hist == <<sdlog, sdMark, crashAfterSd, suCrash>>
+hist == <<sdlog, sdMark, userCrash, suCrash>>
 SuBusy == dls.su # {} \/ \E i \in 1..Len(stack) : stack[i].ev = "su"
 fns == <<nf, fnk, ran>>
 
@@ -119,7 +121,7 @@ Crash ==
     /\ mode = "user"
     /\ started' = FALSE /\ running' = FALSE
     /\ trg' = [trg EXCEPT !.su.during = Append(@, RSR)]
-    /\ crashAfterSd' = (crashAfterSd \/ sdMark >= 0) /\ suCrash' = (suCrash \/ SuBusy)
+    /\ userCrash' = (userCrash \/ Loops > 0) /\ suCrash' = (suCrash \/ SuBusy)
     /\ last' = [e |-> "crash", r |-> running]
     /\ UNCHANGED <<stopped, justStopped, startedBefore, dls, fired, timers, stack, mode, fns, sdlog, sdMark>>
 
@@ -136,7 +138,8 @@ Run ==
               /\ stack' = stack \o <<Fr("loop", "-", "top", {}, 0, 0), Fr("before", "su", "-", {}, 0, 0)>>
               /\ mode' = "tw"
               /\ last' = [e |-> "run", res |-> "in", r |-> running]
-    /\ UNCHANGED <<justStopped, startedBefore, running, trg, dls, fired, timers, fns, hist>>
+    /\ userCrash' = IF ~started /\ ~startedBefore /\ Loops = 0 THEN FALSE ELSE userCrash
+    /\ UNCHANGED <<justStopped, startedBefore, running, trg, dls, fired, timers, fns, sdlog, sdMark, suCrash>>
 
 (* the harness clock moves *)
 Adv(d) ==
@@ -176,7 +179,7 @@ CbCommon(f) ==
     /\ ran' = [ran EXCEPT ![f] = @ + 1]
     /\ mode' = "user"
     /\ last' = [e |-> "cb", f |-> f, r |-> running]
-    /\ UNCHANGED <<flags, dls, fired, newc, now, nf, fnk, sdMark, crashAfterSd, suCrash>>
+    /\ UNCHANGED <<flags, dls, fired, newc, now, nf, fnk, sdMark, userCrash, suCrash>>
 Logged(ev, p) == IF ev = "sd" THEN Append(sdlog, p) ELSE sdlog
 
 (* fireEvent: the next before-trigger (triggers added meanwhile are picked up by the same loop) *)
@@ -261,7 +264,7 @@ DoCrashTrigger ==
     /\ DuringHead(CRASHB)
     /\ trg' = [[trg EXCEPT ![Top.ev].during = Tail(@)] EXCEPT !.su.during = Append(@, RSR)]
     /\ started' = FALSE /\ running' = FALSE /\ suCrash' = (suCrash \/ SuBusy)
-    /\ UNCHANGED <<stopped, justStopped, startedBefore, dls, fired, timers, stack, mode, fns, sdlog, sdMark, crashAfterSd, last>>
+    /\ UNCHANGED <<stopped, justStopped, startedBefore, dls, fired, timers, stack, mode, fns, sdlog, sdMark, userCrash, last>>
 DoDisconnectAll ==
     /\ DuringHead(DISC)
     /\ trg' = [trg EXCEPT ![Top.ev].during = Tail(@)]
@@ -289,7 +292,7 @@ RucDone ==
               /\ sdMark' = IF sdMark < 0 THEN nf ELSE sdMark
          ELSE /\ stack' = RepTop(stack, [Top EXCEPT !.st = "to"])
               /\ UNCHANGED <<justStopped, sdMark>>
-    /\ UNCHANGED <<started, stopped, startedBefore, running, trg, dls, fired, timers, mode, fns, sdlog, crashAfterSd, suCrash, last>>
+    /\ UNCHANGED <<started, stopped, startedBefore, running, trg, dls, fired, timers, mode, fns, sdlog, userCrash, suCrash, last>>
 
 Silent == BeforeDone \/ DoReallyStart \/ DoCrashTrigger \/ DoDisconnectAll \/ PhaseSwitch \/ ContDone \/ LoopTop \/ RucDone
 
@@ -307,8 +310,6 @@ Next == \/ Cwr(nf + 1)
         \/ BeforeDone \/ DoReallyStart \/ DoCrashTrigger \/ DoDisconnectAll \/ PhaseSwitch \/ ContDone \/ LoopTop \/ RucDone
 -----------------------------------------------------------------------------
 (* ---------------- what a user relies on ---------------- *)
-OnStack(k, ev) == \E i \in 1..Len(stack) : stack[i].k = k /\ stack[i].ev = ev
-Loops == Cardinality({i \in 1..Len(stack) : stack[i].k = "loop"})
 
 \* run() has returned (no loop frame left) only if the reactor is neither started nor running
 IdleAtTopLevel == Loops = 0 => ~started
@@ -327,9 +328,9 @@ BeforeDelays == OnStack("cont", "sd") => dls.sd = {}
 \* a callWhenRunning function is never left queued on a running reactor (unless startup triggers are being run right now)
 CwrNotLost == (running /\ ~OnStack("cont", "su") /\ ~OnStack("before", "su"))
                  => \A i \in 1..Len(trg.su.after) : fnk[trg.su.after[i]].k # "cwr"
-\* once every run() has returned after a stop() (and the user did not crash() the shutdown), every shutdown
-\* trigger registered before the event began has run exactly once
-StopShutsDown == (Loops = 0 /\ sdMark >= 0 /\ ~crashAfterSd)
+\* once every run() has returned after a stop() -- and the user did not crash() that run, so that only the shutdown
+\* event's own trigger ended it -- every shutdown trigger registered before the event began has run exactly once
+StopShutsDown == (Loops = 0 /\ sdMark >= 0 /\ ~userCrash)
                     => \A f \in 1..sdMark : (fnk[f].k = "trig" /\ fnk[f].ev = "sd") => ran[f] = 1
 \* the shutdown event fires at most once, and only after an accepted stop()
 ShutdownNeedsStop == sdMark >= 0 => startedBefore
